@@ -97,6 +97,63 @@ class TG:
         return ('op', self.r.choice(OPS), self.ptree(j, syms), self.ptree(k - j, syms))
 
 
+def pairs_shared_stmt(tg, rng):
+    """Component-pair combination with a component of the same type written outside the braces as well (a single value or
+    a combination): the outside component is shared by - and implicitly conjoined in - every expanded statement."""
+    w = tg.word
+    shared_sym = rng.choice(['Cac', 'Cex', 'Bdir', 'Bind', 'A'])
+    others = [x for x in ['I', 'Bdir', 'Cac', 'Cex', 'Bind'] if x != shared_sym]
+
+    def group():
+        g = [('comp', rng.choice(['I'] if shared_sym != 'I' else ['Bdir']), '', '', ('leaf', w())), ('comp', shared_sym, '', '', ('leaf', w()) if rng.random() < 0.7 else tg.content(2))]
+        if rng.random() < 0.3:
+            g.append(('comp', rng.choice([x for x in others if x != g[0][1]]), '', '', ('leaf', w())))
+        return g
+    k = rng.choice([2, 2, 3])
+    t = ('leaf', group())
+    for _ in range(k - 1):
+        t = ('op', rng.choice(OPS), t, ('leaf', group())) if rng.random() < 0.5 else ('op', rng.choice(OPS), ('leaf', group()), t)
+    outside = [('comp', shared_sym, '', '', ('comb', '', tg.tree(rng.randint(2, 3)), '') if rng.random() < 0.7 else ('leaf', w()))]
+    if shared_sym != 'A':
+        outside.append(('comp', 'A', '', '', ('leaf', w())))
+    if rng.random() < 0.5:
+        outside.append(('comp', 'D', '', '', ('leaf', w())))
+    parts = outside + [('pairs', t)]
+    rng.shuffle(parts)
+    return parts
+
+
+def groups_stmt(tg, rng):
+    """Statement whose components hold several parenthesised combination groups side by side, with and without text
+    between them (the parser joins such groups implicitly; the exporters join their values inside one cell)."""
+    w = tg.word
+
+    def g():
+        if rng.random() < 0.25:
+            return "(%s [%s] (%s [%s] %s))" % (w(), rng.choice(OPS), w(), rng.choice(OPS), w())
+        return "(%s [%s] %s)" % (w(), rng.choice(OPS), w())
+
+    def content():
+        k = rng.choice([2, 2, 3])
+        out = [w() + " "] if rng.random() < 0.3 else []
+        for i in range(k):
+            out.append(g())
+            if i < k - 1:
+                out.append(rng.choice([" ", " ", " %s " % w(), " %s %s " % (w(), w())]))
+        if rng.random() < 0.3:
+            out.append(" " + w())
+        return ''.join(out)
+    syms = rng.sample(['A', 'Bdir', 'Bind', 'Cac', 'Cex', 'E', 'P'], rng.randint(2, 3))
+    parts = [('fill', "%s(%s)" % (s_, content())) for s_ in syms]
+    for s_ in ['A', 'I']:
+        if s_ not in syms:
+            parts.append(('comp', s_, '', '', ('leaf', w())))
+    if rng.random() < 0.4:
+        parts.append(('comp', 'D', '', '', ('leaf', w())))
+    rng.shuffle(parts)
+    return parts
+
+
 # ---------------------------------------------------------------- rendering
 def r_tree(t, chain_ok=True):
     if t[0] == 'leaf':
